@@ -48,6 +48,36 @@ func c17Observe(p *types.Project, m map[string]any) map[string]any {
 	return m
 }
 
+// c17ObserveModel: the raw model of ProjectOptions.LoadModel at `name` and at the names of the unnamed resources.
+func c17ObserveModel(m map[string]any) map[string]any {
+	get := func(section, key string) string {
+		sec, _ := m[section].(map[string]any)
+		r, _ := sec[key].(map[string]any)
+		n, _ := r["name"].(string)
+		return n
+	}
+	name, _ := m["name"].(string)
+	svcs, _ := m["services"].(map[string]any)
+	svc, _ := svcs["s"].(map[string]any)
+	probe := ""
+	switch l := svc["labels"].(type) { // the raw model keeps labels as written (mapping) or canonical (after normalisation)
+	case map[string]any:
+		probe, _ = l["probe"].(string)
+	case map[string]string:
+		probe = l["probe"]
+	case []any:
+		for _, e := range l {
+			if kv, ok := e.(string); ok && strings.HasPrefix(kv, "probe=") {
+				probe = strings.TrimPrefix(kv, "probe=")
+			}
+		}
+	}
+	return map[string]any{"name": name, "probe": probe, "res": map[string]string{
+		"default": get("networks", "default"), "n": get("networks", "n"), "v": get("volumes", "v"),
+		"c": get("configs", "c"), "k": get("secrets", "k"),
+	}}
+}
+
 // c17ResSource names the source whose name an implicit resource name was built from.
 func c17ResSource(s c17Spec, got, key string) string {
 	if !strings.HasSuffix(got, "_"+key) {
@@ -151,7 +181,9 @@ func c17ProfileLattice(ctx *core.Ctx) {
 		{"default-first", func(e []string) []c17Opt { return at(envOpts(e), 0, def) }},
 		{"default-before-dotenv", func(e []string) []c17Opt { l := envOpts(e); return at(l, len(l)-1, def) }},
 		{"default-before-osenv", func(e []string) []c17Opt { l := envOpts(e); return at(l, len(l)-3, def) }},
-		{"default-given", func(e []string) []c17Opt { return append(envOpts(e), c17Opt{Op: "defprofiles", L: []string{"test", " raw "}}) }},
+		{"default-given", func(e []string) []c17Opt {
+			return append(envOpts(e), c17Opt{Op: "defprofiles", L: []string{"test", " raw "}})
+		}},
 		{"profiles-then-default", func(e []string) []c17Opt { return append(envOpts(e), c17Opt{Op: "profiles", L: []string{"test"}}, def) }},
 		{"default-then-profiles", func(e []string) []c17Opt { return append(envOpts(e), def, c17Opt{Op: "profiles", L: []string{"qa"}}) }},
 		{"default-then-empty-profiles", func(e []string) []c17Opt { return append(envOpts(e), def, c17Opt{Op: "profiles"}) }},
@@ -191,6 +223,10 @@ func c17ProfileLattice(ctx *core.Ctx) {
 				if (vi+si)%5 == 0 {
 					a.Opts = append([]c17Opt{{Op: "name", V: "expl"}}, a.Opts...)
 					a.Files = [][]c17Doc{{{Name: sp("fromfile")}}}
+				}
+				a.LM = (vi+si)%2 == 0
+				if a.LM {
+					ctx.Count("lattice-profiles-LoadModel")
 				}
 				ctx.Count("lattice-profiles")
 				ctx.Count("profiles-seq=" + sq.tag)
@@ -233,6 +269,10 @@ func c17ProfileGlue(ctx *core.Ctx, a c17Args) c17Args {
 				ctx.Count("profglue-WithDefaultProfiles()-anywhere")
 			}
 		}
+	}
+	if r.Intn(2) == 0 {
+		a.LM = true
+		ctx.Count("profglue-LoadModel")
 	}
 	return a
 }
